@@ -582,6 +582,7 @@ def gen_point(r, sp, names=None, positive=False):
 # C13 history machine (also carries C18's history facet)
 # --------------------------------------------------------------------------
 
+SITE_KINDS = ["main", "main", "script", "nb"]
 C13_METHODS = ["auto", "auto", "auto", "linprog", "linprog", "highs-ds", "highs-ipm", "highs", "SLSQP", "SLSQP", "trust-constr", "trust-constr",
                "L-BFGS-B", "L-BFGS-B", "COBYLA", "TNC", "BFGS", "Newton-CG", "Nelder-Mead", "Powell", "CG"]
 
@@ -619,6 +620,68 @@ def gen_lp_rotation(r):
             ops.append(["subject_to", 0, r.choice(sorted(sp["cons"]))])
         if r.random() < 0.2:
             ops.append([r.choice(["read_variables", "read_bounds"]), 0])
+        ops.append(["solve", 0, {"method": r.choice(lpm + ["SLSQP"])}])
+    return {"knobs": dict(DEFAULT_KNOBS), "ops": ops}
+
+
+def gen_lp_bounds(r):
+    """A warm LP (objective pressing every variable against its box, single-variable rows next to
+    ordinary ones) whose *bounds* are edited again and again -- relaxed, tightened, removed, set
+    back -- with LP-route solves in between and no other edit, so that whatever was extracted at the
+    first solve stays cached: only the bounds of the moment may count."""
+    from .world import DEFAULT_KNOBS
+
+    sp = {"name": "lpb", "vars": gen_vars(r, r.choice(["A", "A", "B", "E", None])), "params": [], "exprs": {}, "cons": {}}
+    names = [n for n in S.all_element_names(sp) if n != "w"]
+    at = S.elem_attrs(S.new_shadow(sp))
+    use = r.sample(names, min(len(names), r.choice([2, 3, 4])))
+    sp["exprs"]["o0"] = render_linear(r, sp, [(r.choice(COEFS), n) for n in use], r.choice([0.0, 0.0, 2.0]))
+    sp["exprs"]["o1"] = render_linear(r, sp, [(-r.choice(POS), n) for n in use])
+    for i, n in enumerate(use):
+        # single-variable rows: looser than, equal to or tighter than the declared bound of the moment
+        sense = r.choice(["<=", ">="])
+        ref = at[n][1] if sense == "<=" else at[n][0]
+        ref = ref if ref is not None else (6.0 if sense == "<=" else -6.0)
+        rhs = ref + r.choice([-1.0, 0.0, 2.0, 5.0]) * (1 if sense == "<=" else -1)
+        lhs = ref_of(sp, n) if r.random() < 0.6 else ["*", ["num", r.choice([2.0, 0.5])], ref_of(sp, n)]
+        sp["cons"][f"s{i}"] = {"k": "s", "lhs": lhs, "sense": sense, "rhs": ["num", rhs]}
+    for i in range(2):
+        sub = r.sample(use, min(len(use), 2))
+        sp["cons"][f"c{i}"] = {"k": "s", "lhs": render_linear(r, sp, [(r.choice(POS), n) for n in sub]), "sense": "<=", "rhs": ["num", r.choice([4.0, 8.0, 12.0])]}
+    sp["expr_order"] = sorted(sp["exprs"])
+    sp["con_order"] = sorted(sp["cons"])
+    lpm = ["auto", "auto", "linprog", "highs-ds", "highs"]
+    ops = [["new_model", 0, sp], [r.choice(["minimize", "maximize"]), 0, r.choice(["o0", "o1"])]]
+    for c in r.sample(sorted(sp["cons"]), r.randint(1, len(sp["cons"]))):
+        ops.append(["subject_to", 0, c])
+    ops.append(["solve", 0, {"method": r.choice(lpm)}])
+    for _ in range(r.randint(2, 6)):
+        e = r.choice(use)
+        lb, ub, _dom = at[e]
+        k = r.random()
+        if k < 0.5:
+            side = r.choice([0, 1])
+            cur = at[e][side]
+            if cur is None:
+                nb = r.choice([-3.0, 0.0]) if side == 0 else r.choice([3.0, 6.0])
+            else:
+                nb = cur + r.choice([1.0, 3.0, 6.0]) * (-1 if side == 0 else 1)  # relax
+            if r.random() < 0.15:
+                nb = None
+        else:
+            side = r.choice([0, 1])
+            other = at[e][1 - side]
+            cur = at[e][side]
+            base = cur if cur is not None else (-4.0 if side == 0 else 4.0)
+            nb = base + r.choice([0.5, 1.0, 2.0]) * (1 if side == 0 else -1)  # tighten
+            if other is not None and ((side == 0 and nb > other) or (side == 1 and nb < other)):
+                nb = other
+        ops.append(["set_lb" if side == 0 else "set_ub", 0, e, nb])
+        at[e][side] = nb
+        if r.random() < 0.15:
+            ops.append([r.choice(["read_bounds", "read_variables"]), 0])
+        if r.random() < 0.15:
+            ops.append(["maximize" if r.random() < 0.5 else "minimize", 0, r.choice(["o0", "o1"])])
         ops.append(["solve", 0, {"method": r.choice(lpm + ["SLSQP"])}])
     return {"knobs": dict(DEFAULT_KNOBS), "ops": ops}
 
@@ -677,6 +740,8 @@ def gen_c13(r, int_frac=0.0, strict_frac=0.0, maxlen=None):
         return gen_redeclare(r)
     if int_frac == 0.0 and r.random() < 0.1:
         return gen_lp_rotation(r)
+    if int_frac == 0.0 and r.random() < 0.08:
+        return gen_lp_bounds(r)
     deep = r.choice([0, 0, 0, 4, 9])
     if r.random() < 0.05:
         deep = 405  # really deep linear objectives: iterative degree / variable / coefficient code
@@ -771,6 +836,8 @@ def gen_c13(r, int_frac=0.0, strict_frac=0.0, maxlen=None):
                 a["tol"] = r.choice([1e-4, 1e-8])
             if r.random() < 0.15:
                 a["x0_prev"] = True
+            if r.random() < 0.25:
+                a["site"] = r.choice(SITE_KINDS)  # the caller's namespace: python -c / REPL, a script, a notebook cell
             cap_iterations(r, a)
             forced_retry = r.random() < 0.07 and a["method"] in ("SLSQP", "auto")
             if forced_retry:
